@@ -108,7 +108,7 @@ func H_C05_hyperlane() {
 	w.Hyp.tokenKnown, w.Hyp.originDenom = true, nativeDenom
 	// the remaining dimensions are drawn only when the byte fields are well-formed (otherwise the refusal is already decided)
 	if len(attr.TokenId) == 32 && len(attr.Recipient) == 32 && (len(attr.CustomHookId) == 0 || len(attr.CustomHookId) == 32) {
-		meta = []string{"", "0x", "0x00ff", "0xzz", "00ff", "0x0"}[verif.Choose("metadata", 6)]
+		meta = []string{"", "0x", "0x00ff", "0xzz", "00ff", "0x0", "0", "x"}[verif.Choose("metadata", 8)]
 		attr.CustomHookMetadata = meta
 		attr.GasLimit = verif.BigInt("gas")
 		attr.MaxFee = sdk.Coin{Denom: []string{"uusdc", "", "!!"}[verif.Choose("maxfee-denom", 3)], Amount: verif.BigInt("maxfee")}
